@@ -244,4 +244,21 @@ example :
       ((step app (run app s0 es) .bkpFinish).img.map (recoverImage app)) = some 3 := by
   decide
 
+/-- non-vacuity of `stage3_run_main_stable` and `image_instant_partial`: a history reaches stage MAIN_COPY, writers and
+    the checkpoint thread act inside it and the main file stays 1 while the API already reads 3; and events
+    attempted after the final savepoint (a write, a checkpoint, a second backup) do not reach the image -/
+example :
+    let app : Nat → Nat → Nat := fun r m => m + r
+    let s0 : St Nat Nat := { mem := 0, main := 0, log := [], flushed := 0, rfo := 0, stage := 0, imgMain := none,
+                             img := none, forceCp := false, crashed := false }
+    let pre : List (Evt Nat) := [.write 1, .bkpStart, .bkpCleanup]
+    let mid : List (Evt Nat) := [.write 2, .checkpoint, .savepoint, .bkpStart]
+    let fin : List (Evt Nat) := [.bkpCopyMain, .bkpFinalSavepoint]
+    let late : List (Evt Nat) := [.write 5, .checkpoint, .bkpStart]
+    (run app s0 pre).stage = 3 ∧ (run app s0 pre).main = 1 ∧
+      (run app s0 (pre ++ mid)).stage = 3 ∧ (run app s0 (pre ++ mid)).main = 1 ∧ (run app s0 (pre ++ mid)).mem = 3 ∧
+      (run app s0 (pre ++ mid ++ fin)).stage = 5 ∧ (run app s0 (pre ++ mid ++ fin)).crashed = false ∧
+      ((step app (run app s0 (pre ++ mid ++ fin ++ late)) .bkpFinish).img.map (recoverImage app)) = some 3 := by
+  decide
+
 end IwModel.C08
